@@ -143,6 +143,30 @@ def flag_cases(prop):
     return out
 
 
+def legacy_cases(prop):
+    """LEGACY stores: source and destination created with hash_name="md5-dos2unix".  Tree.load names the
+    entries of a legacy store's tree md5-dos2unix, so the requested file ids bind to their directory
+    (MODELLED: ids are opaque tokens for the model)."""
+    f = {"f0": hx(b"alpha"), "f1": hx(b"beta"), "f2": hx(b""), "f3": hx(b"gamma")}
+    d = {"d0.dir": [["a", "f0"], ["sub/b", "f1"]], "d1.dir": [["x", "f1"], ["y/z", "f2"], ["y/z2", "f2"]]}
+    src = {t: None for t in list(f) + list(d)}
+    out = []
+    for cls in ("local", "base"):
+        # closed request as the index-level push names it: everything md5-dos2unix; the shared file fails
+        out.append({"prop": prop, "files": f, "dirs": d, "src": src, "cache": None, "dst": {},
+                    "req": ["d0.dir", "d1.dir", "f0", "f1", "f2"], "shallow": True, "verify": False,
+                    "src_cls": "local", "dst_cls": cls, "dix": cls == "base", "six": False, "hash_name": "md5-dos2unix",
+                    "rounds": [{"fails": ["f1"], "crash": None, "reset": True}, {"fails": [], "crash": None, "reset": False}]})
+        # expanded request, the directory named the way Tree.digest() names it: HashInfo("md5", "<md5>.dir")
+        out.append({"prop": prop, "files": f, "dirs": d, "src": src, "cache": None, "dst": {},
+                    "req": ["d0.dir", "d1.dir"], "shallow": False, "verify": False, "src_cls": "base", "dst_cls": cls,
+                    "dix": False, "six": False, "hash_name": "md5-dos2unix",
+                    "req_names": {"d0.dir": "md5", "d1.dir": "md5"},
+                    "rounds": [{"fails": ["f0" if cls == "local" else "f2"], "crash": None, "reset": True},
+                               {"fails": [], "crash": None, "reset": False}]})
+    return out
+
+
 def position_cases(ctx, prop):
     """one failing upload at the FIRST, a MIDDLE and the LAST position of the batch and on the directory
     object's own upload, for the error kinds EIO / PermissionError (modelled), FileNotFoundError (the
@@ -289,6 +313,14 @@ def run_staging(ctx, case):
     from dvc_data.hashfile.db.local import LocalHashFileDB
     from dvc_data.hashfile.transfer import transfer
 
+    from dvc_objects.fs import LocalFileSystem, MemoryFileSystem
+
+    from dvc_data.hashfile.db.reference import ReferenceHashFileDB
+    from dvc_data.hashfile.hash_info import HashInfo
+    from dvc_data.hashfile.meta import Meta
+    from dvc_data.hashfile.tree import Tree
+
+    mixed = case["stream"] == "mixedfs"
     tree = {k: bytes.fromhex(v) for k, v in case["tree"].items()}
     root = ctx.fresh("stg")
     ws = os.path.join(root, "ws")
@@ -322,10 +354,35 @@ def run_staging(ctx, case):
             odb.add = add
             seen = []
             try:
-                staging, _meta, obj = build(odb, ws, localfs, "md5")
-                tree_oid = obj.hash_info.value
-                res = transfer(staging, odb, {obj.hash_info}, jobs=1, shallow=False,
-                               validate_status=lambda st: (seen.append(st), setattr(rec, "phase", "upload")))
+                if mixed:
+                    # the shape of C04/r7m1's demo: a reference odb on memfs whose objects for ONE _add batch sit
+                    # on three filesystem objects (two LocalFileSystem instances and memfs)
+                    memfs = MemoryFileSystem()
+                    mroot = "memory://mixed-" + os.path.basename(root)
+                    staging = ReferenceHashFileDB(memfs, mroot + "/staging", hash_name="md5")
+                    fss = [LocalFileSystem(), LocalFileSystem(), memfs]
+                    t = Tree()
+                    for i, (rp, data) in enumerate(sorted(tree.items())):
+                        fsx = fss[i % 3]
+                        if fsx is memfs:
+                            path = mroot + "/gen/" + rp
+                            memfs.makedirs(os.path.dirname(path), exist_ok=True)
+                            memfs.pipe_file(path, data)
+                        else:
+                            path = os.path.join(ws, *rp.split("/"))
+                        staging.add(path, fsx, impl.md5hex(data))
+                        t.add(tuple(rp.split("/")), Meta(size=len(data)), HashInfo("md5", impl.md5hex(data)))
+                    t.digest()
+                    staging.add(t.path, t.fs, t.oid)
+                    tree_oid = t.oid
+                    request = {t.hash_info} | ({hi for _, _, hi in t} if case.get("shallow") else set())
+                    res = transfer(staging, odb, request, jobs=1, shallow=bool(case.get("shallow")),
+                                   validate_status=lambda st: (seen.append(st), setattr(rec, "phase", "upload")))
+                else:
+                    staging, _meta, obj = build(odb, ws, localfs, "md5")
+                    tree_oid = obj.hash_info.value
+                    res = transfer(staging, odb, {obj.hash_info}, jobs=1, shallow=False,
+                                   validate_status=lambda st: (seen.append(st), setattr(rec, "phase", "upload")))
                 outcome = ("ok", {h.value for h in res.transferred}, {h.value for h in res.failed})
             except TC.Abort:
                 outcome = ("crash",)
@@ -370,7 +427,8 @@ def run_staging(ctx, case):
                     problems.append(("C04:retry-incomplete", f"staging round {ri}: fault-free transfer left {gone} out"))
     finally:
         impl.rm_rf(root)
-    dims = {"store:memfs-staging-source", "class:staging->" + case["dst_cls"]} | TC.name_dims(tree.keys())
+    dims = {"store:mixed-filesystem-source(2 localfs + memfs)" if mixed else "store:memfs-staging-source",
+            "class:%s->%s" % ("mixedfs" if mixed else "staging", case["dst_cls"])} | TC.name_dims(tree.keys())
     if b"" in tree.values():
         dims.add("shape:zero-length-file")
     if len(set(tree.values())) < len(tree):
@@ -380,6 +438,18 @@ def run_staging(ctx, case):
     if case.get("dst"):
         dims.add("pre:right-object-protected")
     return problems, dims, rounds
+
+
+def mixedfs_cases():
+    t = {k: hx(v) for k, v in {"a.bin": b"local a", "sub/b.bin": b"local b", "gen/c.bin": b"memory c",
+                                "gen/d.bin": b"memory d", "e.bin": b"local e", "f.bin": b"", "gen/g.bin": b"memory g"}.items()}
+    out = []
+    for cls in ("local", "base"):
+        out.append({"prop": "C04", "stream": "mixedfs", "tree": t, "dst": [], "dst_cls": cls, "shallow": cls == "local",
+                    "fails": [], "crash": None, "retry": True})
+    out.append({"prop": "C04", "stream": "mixedfs", "tree": t, "dst": ["e.bin"], "dst_cls": "base", "shallow": True,
+                "fails": ["a.bin"], "crash": None, "retry": True})
+    return out
 
 
 def staging_cases():
